@@ -3,10 +3,15 @@
    particular after every step of every history) - the bits of the packed bitmap (continuation bits aside) are
    exactly the ids GetFields reports (m_present), JSON is built from that same set and succeeds iff Pack does,
    Pack changes neither values nor the set (only the bookkeeping id 1). UnsetField removes the id and replaces
-   the field's whole state by a fresh one (nothing nested survives). The clause about Unmarshal-into-struct and the
-   no-resurrection clause for paths are checked by the oracle (a fresh message given exactly the observable values
-   packs to the same bytes after every step of every history). *)
-From Iso Require Import Model.Base Model.Bitmap Model.Spec Model.Field Model.Message Model.Json Model.MessageOps Proofs.BaseLemmas Proofs.StateProofs.
+   the field's whole state by a fresh one (nothing nested survives). The set itself is characterised per operation:
+   a setter adds exactly the id it writes, UnsetField removes exactly its id, and after a successful Unpack - of any
+   bytes - it is the MTI, the bitmap and exactly the data elements whose bit is set in the unpacked bitmap
+   (C14_set_adds, C14_unset_removes, C14_unpack_set; fixed bitmaps: C14_bitmap_is_getfields_fixed); what Unpack leaves
+   below the set is C10. Message.Marshal of a struct over the MTI and primitive data elements adds exactly the ids of
+   its non-zero indexed fields (C14_marshal_set). The clause about Unmarshal-into-struct and the no-resurrection clause for paths are checked
+   by the oracle (reference set, resurrection check, and: a fresh message given exactly the observable values packs to
+   the same bytes after every step of every history). *)
+From Iso Require Import Model.Base Model.Bitmap Model.Spec Model.Field Model.Message Model.Json Model.MessageOps Proofs.BaseLemmas Proofs.StateProofs Proofs.MessageRoundtrip Proofs.PresenceProofs Model.Marshal Proofs.MarshalStruct.
 
 Theorem C14_bitmap_is_getfields : forall S m m' b, bm_auto (ms_bm S) = true -> 1 <= bm_len (ms_bm S) ->
   m_pack S m = (m', Ok b) ->
@@ -34,3 +39,33 @@ Proof.
   - intros st Hst. apply zlookup_zupdate_same. exists st. exact Hst.
 Qed.
 Print Assumptions C14_unset_discards.
+
+Theorem C14_bitmap_is_getfields_fixed : forall S m m' b, bm_auto (ms_bm S) = false -> 0 <= bm_len (ms_bm S) ->
+  m_pack S m = (m', Ok b) ->
+  zlen (m_bm m') = bm_len (ms_bm S) /\ forall i, 2 <= i -> bm_isset (m_bm m') i = zmem i (m_present m).
+Proof. exact m_pack_bitmap_agrees_fixed. Qed.
+Print Assumptions C14_bitmap_is_getfields_fixed.
+
+Theorem C14_set_adds : forall S m id val s st, 2 <= id -> zlookup id (ms_fields S) = Some s -> zlookup id (m_fields m) = Some st ->
+  forall i, zmem i (m_present (fst (m_set_field S m id val))) = (i =? id) || zmem i (m_present m).
+Proof. exact m_set_field_present. Qed.
+Print Assumptions C14_set_adds.
+
+Theorem C14_unset_removes : forall S m id i, zmem i (m_present (m_unset S m id)) = negb (i =? id) && zmem i (m_present m).
+Proof. exact m_unset_present. Qed.
+Print Assumptions C14_unset_removes.
+
+Theorem C14_unpack_set : forall S m d m' n, m_unpack S m d = (m', UOk n) ->
+  zmem 0 (m_present m') = true /\ zmem 1 (m_present m') = true /\
+  forall id, 2 <= id -> zmem id (m_present m') = bm_isset (m_bm m') id && negb (bm_is_presence_bit (ms_bm S) id).
+Proof. exact m_unpack_present. Qed.
+Print Assumptions C14_unpack_set.
+
+(* Marshal: the populated set grows by exactly the ids of the struct's non-zero indexed fields *)
+Theorem C14_marshal_set : forall S l m, Forall (row_ok S) l -> has_states S m -> NoDup (map rid (filter live l)) ->
+  exists m', m_marshal_fields S m l = (m', Ok tt) /\
+    forall id, zmem id (m_present m') = zmem id (m_present m) || existsb (fun r => live r && (rid r =? id)) l.
+Proof.
+  intros S l m Hok Hst Hnd. destruct (marshal_rows S l m Hok Hst Hnd) as (m' & Hm & _ & Hp & _). exists m'. split; [exact Hm|exact Hp].
+Qed.
+Print Assumptions C14_marshal_set.
